@@ -93,13 +93,20 @@ fn names_owned(defs: &[Dict]) -> String {
     v.join(",")
 }
 
+/// "tag" = marker, "tag=@id" = Ref, "tag=$text" = Str, "tag=#1.5" = Number: records with the same
+/// tag names but different kinds of values are different subjects for reflection.
 fn record_of(tags: &[String]) -> Dict {
     let mut d = Dict::new();
     for t in tags {
-        match t.split_once("=@") {
-            Some((k, r)) => d.insert(k.to_string(), Value::make_ref(r)),
-            None => d.insert(t.to_string(), Value::Marker),
-        };
+        if let Some((k, r)) = t.split_once("=@") {
+            d.insert(k.to_string(), Value::make_ref(r));
+        } else if let Some((k, r)) = t.split_once("=$") {
+            d.insert(k.to_string(), Value::make_str(r));
+        } else if let Some((k, r)) = t.split_once("=#") {
+            d.insert(k.to_string(), Value::make_number(r.parse().unwrap_or(0.0)));
+        } else {
+            d.insert(t.to_string(), Value::Marker);
+        }
     }
     d
 }
@@ -180,6 +187,10 @@ pub const QUERIES: &[&str] = &[
 /// supertypes, choices, tagOn, a transitive relationship) as a Zinc defs grid.
 pub fn gen_taxonomy(rng: &mut Rng) -> (String, Vec<String>) {
     let n = rng.range(3, 24);
+    gen_taxonomy_n(rng, n)
+}
+
+pub fn gen_taxonomy_n(rng: &mut Rng, n: usize) -> (String, Vec<String>) {
     let mut rows: Vec<String> = Vec::new();
     let mut syms: Vec<String> = Vec::new();
     let mut row = |def: &str, is: &[&str], extra: &[(&str, String)]| -> String {
@@ -250,7 +261,7 @@ pub fn gen_taxonomy(rng: &mut Rng) -> (String, Vec<String>) {
         syms.push(name);
     }
     // conjuncts, feature keys, ref tags carrying the relationship
-    for _ in 0..rng.range(0, 3) {
+    for _ in 0..rng.range(0, 3 + n / 16) {
         if d_names.len() >= 2 {
             let a = d_names[rng.usize(d_names.len())].clone();
             let b = d_names[rng.usize(d_names.len())].clone();
@@ -300,7 +311,18 @@ pub fn gen_op(rng: &mut Rng, syms: &[String], hot: &[String]) -> Op {
         "reflect" | "def_of_dict" | "protos" => {
             let k = rng.range(1, 4);
             for _ in 0..k {
-                op.rec.push(pick(rng));
+                let t = pick(rng);
+                // the parts of a conjunct appear together, as markers or as tags that hold a value
+                for part in t.split('-') {
+                    op.rec.push(match rng.below(8) {
+                        0 => format!("{part}=$n/a"),
+                        1 => format!("{part}=#1"),
+                        _ => part.to_string(),
+                    });
+                }
+                if t.contains('-') && rng.chance(1, 2) {
+                    op.rec.push(t.clone());
+                }
             }
             op.b = pick(rng);
             op.a.clear();
@@ -446,6 +468,10 @@ fn execute(case: &Case) -> Exec {
     let sched = sched_of(case);
     let shards = case.extra_usize("shards").unwrap_or(4);
     let hash_seed = case.extra.get("hash_seed").and_then(|v| v.as_u64()).unwrap_or(0);
+    // bounded liveness: 10^6 scheduling steps for ordinary runs; bulk sweeps make thousands of
+    // queries, their budget is 2000 steps per query
+    let n_queries: usize = threads.iter().map(|t| t.len()).sum();
+    let max_steps: usize = (1_000_000usize).max(2000 * n_queries);
     let trace = Arc::new(StdMutex::new(Vec::new()));
     let switches = Arc::new(AtomicU64::new(0));
     let (t2, s2) = (trace.clone(), switches.clone());
@@ -460,7 +486,7 @@ fn execute(case: &Case) -> Exec {
             let mut cfg = shuttle::Config::new();
             cfg.stack_size = 1 << 20;
             cfg.failure_persistence = shuttle::FailurePersistence::None;
-            cfg.max_steps = shuttle::MaxSteps::FailAfter(1_000_000);
+            cfg.max_steps = shuttle::MaxSteps::FailAfter(max_steps);
             cfg.silence_warnings = true;
             let scheduler = SimScheduler::new(&sched, t2, s2);
             let runner = shuttle::Runner::new(scheduler, cfg);
@@ -529,11 +555,13 @@ fn scenario(defs_text: &Arc<String>, threads: &Arc<Vec<Vec<Op>>>, slot: &Arc<Std
     unsafe { free_ns(ns) };
     let mut report = RunReport::default();
     let mut cache: BTreeMap<String, String> = BTreeMap::new();
+    let ref_grid: Grid = zinc_from_str(defs_text).ok().and_then(|v| Grid::try_from(&v).ok()).unwrap_or_default();
     for (ti, oi, ans) in &got {
         let op = &threads[*ti][*oi];
         let key = serde_json::to_string(op).unwrap();
         let expect = cache.entry(key).or_insert_with(|| {
-            let fresh = make_ns(defs_text);
+            // a different instance, cold, single-threaded, asked this one query only
+            let fresh: &'static Namespace<'static> = Box::leak(Box::new(Namespace::make(ref_grid.clone())));
             let a = answer(fresh, op);
             unsafe { free_ns(fresh) };
             a
@@ -627,6 +655,14 @@ impl C14 {
             Tier::Thorough => (640, 8000, 2000),
         }
     }
+
+    /// (bulk units, cases per bulk unit)
+    fn bulk_sizes(&self) -> (usize, usize) {
+        match self.ctx.tier {
+            Tier::Quick => (16, 2),
+            Tier::Thorough => (64, 12),
+        }
+    }
 }
 
 fn gen_case(seed: u64, real_defs: Option<&(String, Vec<String>)>) -> Case {
@@ -655,10 +691,82 @@ fn gen_case(seed: u64, real_defs: Option<&(String, Vec<String>)>) -> Case {
         wl.shuffle(&mut ops);
         threads[0].extend(ops);
     }
+    // near-duplicate subjects: the same tag names with one marker turned into a value tag (or
+    // back), placed on any thread - whatever is remembered per "shape" must not leak between them
+    let mut siblings: Vec<Op> = Vec::new();
+    for ops in &threads {
+        for op in ops {
+            if !op.rec.is_empty() && matches!(op.q.as_str(), "reflect" | "def_of_dict" | "protos" | "filter") && wl.chance(1, 2) {
+                let mut sib = op.clone();
+                let i = wl.usize(sib.rec.len());
+                let name = sib.rec[i].split('=').next().unwrap_or("").to_string();
+                if !sib.rec[i].contains("=@") && !name.is_empty() {
+                    sib.rec[i] = if sib.rec[i].contains('=') { name } else { format!("{name}=$n/a") };
+                    siblings.push(sib);
+                }
+            }
+        }
+    }
+    for sib in siblings {
+        let t = wl.usize(threads.len());
+        let at = wl.usize(threads[t].len() + 1);
+        threads[t].insert(at, sib);
+    }
     let mut c = Case::new("C14", "namespace", text.as_bytes());
     c.extra.insert("threads".into(), serde_json::to_value(&threads).unwrap());
     c.extra.insert("shards".into(), (*kn.pick(&[2u64, 2, 4, 16, 64])).into());
     c.extra.insert("hash_seed".into(), kn.next_u64().into());
+    let mode = if sc.chance(1, 2) { "random" } else { "pct" };
+    let s = Sched { mode: mode.into(), seed: sc.next_u64(), depth: sc.range(1, 5), trace: vec![] };
+    c.extra.insert("sched".into(), serde_json::to_value(&s).unwrap());
+    c
+}
+
+/// Bulk sweep: every thread walks over (nearly) all symbols of a large namespace - the shipped
+/// defs or a generated taxonomy of several hundred defs - so that whatever bounds, evicts or
+/// rebuilds the lazy caches at some size is driven past that size while other threads are
+/// between their insert and their read.
+fn gen_bulk_case(seed: u64, real_defs: Option<&(String, Vec<String>)>) -> Case {
+    let rng = Rng::new(seed);
+    let mut wl = rng.fork("workload");
+    let mut sc = rng.fork("schedule");
+    let mut kn = rng.fork("knobs");
+    let (text, mut syms) = match real_defs {
+        Some((t, s)) if wl.chance(1, 2) => (t.clone(), s.clone()),
+        _ => {
+            let n = *wl.pick(&[150usize, 300, 600, 1100]);
+            gen_taxonomy_n(&mut wl, n)
+        }
+    };
+    for i in 0..syms.len() / 10 {
+        syms.push(format!("notADef{i}"));
+    }
+    let nthreads = *wl.pick(&[2usize, 2, 3, 4, 8]);
+    let kinds: Vec<&str> = {
+        let all = ["supertypes_of", "inheritance", "all_supertypes_of", "fits_entity", "fits_marker", "tags", "is", "fits"];
+        let k = wl.range(1, 2);
+        (0..k).map(|_| *wl.pick(&all)).collect()
+    };
+    let mut threads: Vec<Vec<Op>> = Vec::new();
+    for _ in 0..nthreads {
+        let mut order = syms.clone();
+        wl.shuffle(&mut order);
+        let take = order.len() * wl.range(60, 100) / 100;
+        threads.push(
+            order[..take]
+                .iter()
+                .map(|sym| {
+                    let q = *wl.pick(&kinds);
+                    Op { q: q.to_string(), a: sym.clone(), b: if q == "fits" { "entity".into() } else { String::new() }, rec: Vec::new() }
+                })
+                .collect(),
+        );
+    }
+    let mut c = Case::new("C14", "namespace", text.as_bytes());
+    c.extra.insert("threads".into(), serde_json::to_value(&threads).unwrap());
+    c.extra.insert("shards".into(), (*kn.pick(&[2u64, 4, 16, 64])).into());
+    c.extra.insert("hash_seed".into(), kn.next_u64().into());
+    c.extra.insert("bulk".into(), true.into());
     let mode = if sc.chance(1, 2) { "random" } else { "pct" };
     let s = Sched { mode: mode.into(), seed: sc.next_u64(), depth: sc.range(1, 5), trace: vec![] };
     c.extra.insert("sched".into(), serde_json::to_value(&s).unwrap());
@@ -682,6 +790,9 @@ impl Engine for C14 {
         let (n, _, _) = self.sizes();
         let mut u: Vec<UnitSpec> = (0..n as u64).map(|i| UnitSpec { id: i, name: format!("search:{i}"), isolated: false, exhaustive: false }).collect();
         u.push(UnitSpec { id: n as u64, name: "real-defs".into(), isolated: false, exhaustive: false });
+        for i in 0..self.bulk_sizes().0 as u64 {
+            u.push(UnitSpec { id: n as u64 + 1 + i, name: format!("bulk:{i}"), isolated: false, exhaustive: false });
+        }
         u
     }
 
@@ -696,6 +807,15 @@ impl Engine for C14 {
                 let mut c = gen_case(mix(&[seed, sub]), Some(d));
                 c.origin = format!("{uname} sub={sub}");
                 Some(c)
+            }));
+        }
+        if unit.name.starts_with("bulk:") {
+            let defs = real_defs(&self.ctx);
+            let seed = mix(&[self.ctx.seed, fnv1a(b"C14-bulk"), unit.id]);
+            return Box::new((0..self.bulk_sizes().1 as u64).map(move |sub| {
+                let mut c = gen_bulk_case(mix(&[seed, sub]), defs.as_ref());
+                c.origin = format!("{uname} sub={sub}");
+                c
             }));
         }
         let unit_seed = mix(&[self.ctx.seed, fnv1a(b"C14-search"), unit.id]);
